@@ -448,7 +448,7 @@ func (g *goRenderer) r(e ast.Expr) string {
 			o := a(0)
 			g.inOld = false
 			return "gvcSame(" + a(0) + ", " + o + ")"
-		case "heapframe":
+		case "heapframe", "isold":
 			return "true"
 		case "sameslice":
 			return "gvcSameSlice(" + a(0) + ", " + a(1) + ")"
